@@ -221,12 +221,14 @@ def region(kind, mesh, **kw):
     if kind == "line":
         return fem.Region(mesh, fem.Line(), fem.GaussLegendre(order=1, dim=1), **kw)
     if kind.startswith("lagrange"):
-        dim, order = int(kind[8]), int(kind[10:])
+        dim, order = int(kind[8]), int(kind[10:].rstrip("n"))
+        if kind.endswith("n"):  # not permuted: cells in lexicographic point order
+            kw = dict(kw, permute=False)
         return fem.RegionLagrange(mesh, order=order, dim=dim, **kw)
     return getattr(fem, REGION[kind])(mesh, **kw)
 
 
-def lagrange_mesh(dim, order, member, seed=0):
+def lagrange_mesh(dim, order, member, seed=0, permute=True):
     """single-cell arbitrary-order mesh: ref | affine | curved (interior/edge nodes moved)"""
     import felupe as fem
 
@@ -234,6 +236,8 @@ def lagrange_mesh(dim, order, member, seed=0):
         m = fem.mesh.RectangleArbitraryOrderQuad(order=order)
     else:
         m = fem.mesh.CubeArbitraryOrderHexahedron(order=order)
+    if permute is False:
+        m = fem.Mesh(m.points, np.arange(m.npoints).reshape(1, -1), m.cell_type)
     pts = m.points.copy()
     if member == "affine":
         pts = pts @ affine_matrix(dim, seed).T + 0.1 * offvec(seed, 9, dim)
